@@ -35,7 +35,7 @@ from common import CORPUS, NCPU, coq_eval, coq_string
 TYPES = ["Integer", "Number", "String", "Boolean", "Date", "Time", "Time_Period", "Duration"]
 COQ_TY = {"Integer": "TInteger", "Number": "TNumber", "String": "TString", "Boolean": "TBoolean", "Date": "TDate",
           "Time": "TTime", "Time_Period": "TPeriod", "Duration": "TDuration"}
-FORMS = ["csv", "df_str", "df_nat", "parquet"]
+FORMS = ["csv", "df_str", "df_nat", "parquet", "pq_nat"]     # pq_nat: Parquet file with typed (native) columns
 SCRIPT = "DS_r <- DS_1;"
 INPUT_KINDS = ("DataLoad", "InputValidation")
 
@@ -54,7 +54,7 @@ Definition tshow (r : tresult) : tout :=
   match r with TAcc rows => OAcc (map (map oshow) rows) | TRej c => ORej c | TLate c => OLate c end.
 Definition all6 (st : structure) (tb tbn : table) : list tout :=
   [tshow (load_run PCsv st tb); tshow (load_run PDfStr st tb); tshow (load_run PDfNat st tbn); tshow (load_run PParquet st tb);
-   tshow (load_pandas false st tb); tshow (load_pandas true st tb); tshow (load_pandas false st tbn)].
+   tshow (load_pandas false st tb); tshow (load_pandas true st tb); tshow (load_pandas false st tbn); tshow (load_run PParquet st tbn)].
 """
 
 
@@ -126,7 +126,13 @@ def families(rng) -> Dict[str, List[Fam]]:
         G("plain", "valid", lambda: str(_ri(rng, -10 ** 6, 10 ** 6))),
         V("zero-forms", "valid", ["0", "-0", "007", "+5", "-12"]),
         V("whole-float-form", "valid", ["1.0", "5.", "1e3", "1E3", "1.5e1", "-2.0", "120e-1", "3.000"]),
-        V("fractional", "invalid", ["1.5", "0.5", "-0.5", "2.5", "-2.5", ".5", "2.50", "1.25e1", "15e-1", "1.4", "0.4999", "3.7"]),
+        V("fractional", "invalid", ["1.5", "0.5", "-0.5", "2.5", "-2.5", ".5", "2.50", "1.25e1", "15e-1", "1.4", "0.4999", "3.7",
+                                    "0.0000001", "-0.0000001", "1e-7", "-2.5e-9", "25e-1"]),
+        # sign x magnitude x spelling (each also supplied as int64 / Int64 / float64 / float32 columns)
+        V("negative", "valid", ["-1", "-42", "-999999999999", "-1000000"]),
+        V("negative-whole-float-form", "valid", ["-1.0", "-2e3", "-5.", "-1.5e1", "-120e-1"]),
+        V("zero-float-forms", "valid", ["0.0", "-0.0", "0e0", "-0e5", "0."]),
+        V("huge-exact-in-double", "valid", ["4503599627370496", "-4503599627370496", "1e15", "-1e15", "9007199254740992"]),
         V("hex", "invalid", ["0x1A", "0X1a", "0xff", "0b101"]),
         V("padded", "silent", [" 7", "7 ", " 42 ", "\t5"]),
         V("above-2^53", "valid", ["9007199254740993", "-9007199254740993", "9007199254740995", "18014398509481985"]),
@@ -134,6 +140,7 @@ def families(rng) -> Dict[str, List[Fam]]:
         V("overflow", "silent", ["9223372036854775808", "1e19", "99999999999999999999"]),
         V("non-numeric", "invalid", ["abc", "1,5", "--1", "true", "1 000", "12a", "+", "e3", "1e", "1.5."]),
         V("nan-inf-word", "silent", ["nan", "NaN", "inf", "-inf", "Infinity"]),
+        V("blank-only", "silent", [" ", "   "]),
         V("empty-string", "silent", [""]),
     ]
     F["Number"] = [
@@ -142,11 +149,20 @@ def families(rng) -> Dict[str, List[Fam]]:
         V("scientific", "valid", ["1e5", "1E-3", "2.5e2", "-1.25E+2", "1e-10", "12e0"]),
         V("dot-forms", "valid", [".5", "5.", "-.25", "+2.5", "007.50"]),
         V("below-scale", "valid", ["1e-11", "0.00000000004", "0.000000000049"]),
+        # sign x magnitude x spelling (each also supplied as float64 and, when exact, float32 columns / typed Parquet)
+        V("negative-tiny", "valid", ["-0.0000005", "-5e-07", "-1.25e-9", "-0.00001234", "-9.5e-5", "-1e-10"]),
+        V("positive-tiny", "valid", ["0.00000025", "5e-07", "3e-5", "0.000099", "7.5e-8"]),
+        V("negative-below-scale", "valid", ["-1e-11", "-0.00000000004", "-6e-11", "-5e-30"]),
+        V("negative-huge", "valid", ["-1e15", "-123456789012345", "-9.5e16", "-65536e10"]),
+        V("positive-huge", "valid", ["1e15", "123456789012345", "9.5e16", "65536e10"]),
+        V("zero-forms", "valid", ["0.0", "-0.0", "0e0", "-0", "+0.0", "0.000"]),
+        V("negative-exponent-forms", "valid", ["-2.5E+3", "-1e-3", "-12e-2", "-1.5e+10", "-.5e1"]),
         V("hex", "invalid", ["0x10", "0xA.8"]),
         V("padded", "silent", [" 1.5", "1.5 ", " -2 "]),
         V("non-numeric", "invalid", ["abc", "1,5", "--1", "1.2.3", "1e", "1.5e", "1d", "1f", "$3"]),
         V("nan-inf-word", "silent", ["nan", "NaN", "inf", "-inf", "Infinity"]),
         V("out-of-decimal-range", "silent", ["1e400", "1234567890123456789", "1e18", "-1e18"]),
+        V("blank-only", "silent", [" ", "   "]),
         V("empty-string", "silent", [""]),
     ]
     F["Boolean"] = [
@@ -156,6 +172,7 @@ def families(rng) -> Dict[str, List[Fam]]:
         V("not-boolean", "invalid", ["2", "-1", "1.0", "0.0", "abc", "on", "off", "tru", "01", "yes!", "truee"]),
         V("padded", "silent", [" true", "true ", " 1"]),
         V("embedded-quote", "silent", ['"TRUE"', 'tr"ue', '"0"']),
+        V("blank-only", "silent", [" ", "   "]),
         V("empty-string", "silent", [""]),
     ]
     words = ["abc", "x", "Hello World", "z9", "Q", "value", "naïve", "é€", "NULL", "null", "NA", "None", "nan", "0", "1.5", "true"]
@@ -166,6 +183,7 @@ def families(rng) -> Dict[str, List[Fam]]:
         V("comma-newline", "valid", ["a,b", "line\nbreak", "a;b", "x,y,z", "tab\there", "semi;colon|pipe"]),
         V("padded", "valid", [" padded ", " lead", "trail ", "  "]),
         V("null-words", "valid", ["NULL", "null", "NA", "None", "nan", "N/A"]),
+        V("blank-only", "valid", [" ", "   "]),
         V("empty-string", "silent", [""]),
     ]
     F["Date"] = [
@@ -188,6 +206,7 @@ def families(rng) -> Dict[str, List[Fam]]:
         V("compact", "silent", ["20200115", "19991231"]),
         V("padded", "silent", [" 2020-01-15", "2020-01-15 ", " 2020-01-15 10:30:00"]),
         V("timezone-without-colon", "silent", ["2020-01-15T10:30:00+0200", "2020-01-15T10:30:00+02"]),
+        V("blank-only", "silent", [" ", "   "]),
         V("empty-string", "silent", [""]),
     ]
 
@@ -212,6 +231,7 @@ def families(rng) -> Dict[str, List[Fam]]:
         V("space-separated-times", "silent", ["2020-01-01 10:00:00/2020-12-31 10:00:00"]),
         V("padded", "silent", [" 2020", "2020-01-01/2020-12-31 ", " 2020-01-01/2020-12-31"]),
         V("year-outside-4-digits", "silent", ["10000", "999", "0000"]),
+        V("blank-only", "silent", [" ", "   "]),
         V("empty-string", "silent", [""]),
     ]
     F["Time_Period"] = [
@@ -245,6 +265,7 @@ def families(rng) -> Dict[str, List[Fam]]:
         V("one-digit-date", "silent", ["2020-1-1", "2020-01-5", "2020-1-15"]),
         V("year-below-1000", "silent", ["0000", "0999Q1", "0001-M01", "0500"]),
         V("year-5-digits", "silent", ["10000", "12020Q1"]),
+        V("blank-only", "silent", [" ", "   "]),
         V("empty-string", "silent", [""]),
     ]
     F["Duration"] = [
@@ -252,6 +273,7 @@ def families(rng) -> Dict[str, List[Fam]]:
         V("lowercase", "silent", ["a", "d", "m", "q"]),
         V("padded", "silent", [" D", "D ", " M "]),
         V("not-a-duration", "invalid", ["X", "AA", "P1Y", "P1M", "PT1H", "P1D", "H", "Y", "1", "DD", "day"]),
+        V("blank-only", "silent", [" ", "   "]),
         V("empty-string", "silent", [""]),
     ]
     return F
@@ -452,7 +474,7 @@ def focus_cell(case):
 
 
 # =============================================================================================== native conversion
-_INT_RE = re.compile(r"^[+-]?\d{1,15}$")
+_INT_RE = re.compile(r"^[+-]?\d{1,19}$")
 _NUM_RE = re.compile(r"^[+-]?(\d+\.?\d*|\.\d+)([eE][+-]?\d+)?$")
 _DATE_RE = re.compile(r"^(\d{4})-(\d{2})-(\d{2})$")
 _DT_RE = re.compile(r"^(\d{4})-(\d{2})-(\d{2})[ T](\d{2}):(\d{2}):(\d{2})(\.\d{1,6})?$")
@@ -463,7 +485,7 @@ def native_cell(ty: str, v: Optional[str]):
     if v is None:
         return ("null",)
     if ty == "Integer":
-        if _INT_RE.match(v):
+        if _INT_RE.match(v) and -2 ** 63 <= int(v) < 2 ** 63:
             return ("int", int(v))
         if _NUM_RE.match(v) and len(v) <= 12:
             return ("flt", float(v))
@@ -495,6 +517,24 @@ def native_cell(ty: str, v: Optional[str]):
     return None
 
 
+def _f32_text(x: float) -> str:
+    """shortest decimal that identifies the float32 nearest to x (what DuckDB prints for a FLOAT)"""
+    import numpy as np
+    return str(np.float32(x))
+
+
+def f32_safe(v: str) -> bool:
+    """the text v denotes exactly the value its float32 shows: the float32 column then has the SAME content as the text forms"""
+    import numpy as np
+    try:
+        f = np.float32(float(v))
+        if not np.isfinite(f):
+            return False
+        return decimal.Decimal(str(f)) == decimal.Decimal(v.strip())
+    except Exception:
+        return False
+
+
 def plan_native(case, rng) -> Dict[str, Optional[str]]:
     plan: Dict[str, Optional[str]] = {}
     for j, name in enumerate(case["cols"]):
@@ -509,13 +549,25 @@ def plan_native(case, rng) -> Dict[str, Optional[str]]:
             continue
         kinds = {c[0] for c in cells}
         has_null = "null" in kinds
+        vals = [row[j] for row in case["rows"] if row[j] is not None]
+        all_f32 = all(f32_safe(v) for v in vals)
+        forced = (case.get("force_native") or {}).get(name)
+        if forced and ty in ("Integer", "Number"):
+            all_int = all(_INT_RE.match(v) and -2 ** 63 <= int(v) < 2 ** 63 for v in vals)
+            exact_f64 = all(abs(float(v)) < 2 ** 53 or not _INT_RE.match(v) for v in vals)
+            ok = {"float32": all_f32, "float64": exact_f64, "int64": all_int and not has_null, "Int64": all_int}[forced]
+            plan[name] = forced if ok else None
+            continue
         if ty == "Integer":
+            big = any(c[0] == "int" and abs(c[1]) >= 2 ** 53 for c in cells)
             if "flt" in kinds:
-                plan[name] = "float64"
+                plan[name] = rng.choice(["float64", "float64", "float32"]) if all_f32 else "float64"
+            elif big:
+                plan[name] = "Int64" if has_null else rng.choice(["int64", "Int64"])
             else:
                 plan[name] = rng.choice(["Int64", "float64"]) if has_null else rng.choice(["int64", "int64", "Int64", "float64"])
         elif ty == "Number":
-            plan[name] = "float64"
+            plan[name] = rng.choice(["float64", "float64", "float32"]) if all_f32 else "float64"
         elif ty == "Boolean":
             plan[name] = "boolean" if has_null else rng.choice(["bool", "boolean"])
         elif ty == "Date":
@@ -535,9 +587,9 @@ def native_raw(ty: str, kind: Optional[str], v: Optional[str]):
         return ("null",)
     if kind in ("int64", "Int64"):
         return ("int", int(c[1]))
-    if kind == "float64":
+    if kind in ("float64", "float32"):
         x = float(c[1])
-        d = decimal.Decimal(repr(x))
+        d = decimal.Decimal(repr(x) if kind == "float64" else _f32_text(x))
         sign, digits, exp = d.as_tuple()
         m = int("".join(map(str, digits)))
         return ("flt", -m if sign else m, exp)
@@ -590,8 +642,8 @@ def build_forms(case, td: str) -> Dict[str, Any]:
             nat[c] = pd.Series([x[1] for x in cells], dtype="int64")
         elif kind == "Int64":
             nat[c] = pd.Series([None if x[0] == "null" else x[1] for x in cells], dtype="Int64")
-        elif kind == "float64":
-            nat[c] = pd.Series([float("nan") if x[0] == "null" else float(x[1]) for x in cells], dtype="float64")
+        elif kind in ("float64", "float32"):
+            nat[c] = pd.Series([float("nan") if x[0] == "null" else float(x[1]) for x in cells], dtype=kind)
         elif kind == "bool":
             nat[c] = pd.Series([x[1] for x in cells], dtype="bool")
         elif kind == "boolean":
@@ -603,6 +655,14 @@ def build_forms(case, td: str) -> Dict[str, Any]:
     tbl = pa.table({c: pa.array([r[j] for r in rows], type=pa.string()) for j, c in enumerate(cols)}) if cols else pa.table({})
     pq.write_table(tbl, pp)
     out["parquet"] = Path(pp)
+    # the same table with typed columns (int64 / double / float / bool / timestamp[us]); NaN / NA / NaT become Parquet nulls
+    os.makedirs(os.path.join(td, "typed"), exist_ok=True)
+    pn = os.path.join(td, "typed", "DS_1.parquet")
+    if cols:
+        pq.write_table(pa.Table.from_pandas(out["df_nat"], preserve_index=False), pn)
+    else:
+        pq.write_table(pa.table({}), pn)
+    out["pq_nat"] = Path(pn)
     return out
 
 
@@ -704,7 +764,7 @@ def _worker_init():
     _worker_ready = True
 
 
-ALL_KEYS = ["csv", "df_str", "df_nat", "parquet", "val_df", "val_csv", "val_dfn"]
+ALL_KEYS = ["csv", "df_str", "df_nat", "parquet", "pq_nat", "val_df", "val_csv", "val_dfn"]
 VAL_FORM = {"val_df": "df_str", "val_csv": "csv", "val_dfn": "df_nat"}
 
 
@@ -726,6 +786,9 @@ def run_engine_case(arg) -> Dict[str, Any]:
             v = forms[k]
             if k == "df_nat" and not has_native and "df_str" in res:      # identical frame: reuse the outcome
                 res[k] = dict(res["df_str"], same_as="df_str")
+                continue
+            if k == "pq_nat" and not has_native and "parquet" in res:     # identical file
+                res[k] = dict(res["parquet"], same_as="parquet")
                 continue
             r = engine.run_case(SCRIPT, st, {"DS_1": v})
             if r["ok"]:
@@ -812,7 +875,7 @@ def coq_case(case) -> str:
     return f"all6 {comps} {tb(False)} {tb(True)}"
 
 
-MODEL_KEYS = ["csv", "df_str", "df_nat", "parquet", "val_df", "val_csv", "val_dfn"]
+MODEL_KEYS = ["csv", "df_str", "df_nat", "parquet", "val_df", "val_csv", "val_dfn", "pq_nat"]
 
 
 def run_model(cases, tag: str) -> List[Dict[str, Any]]:
@@ -839,13 +902,31 @@ def run_denote(pairs: List[Tuple[str, str]], tag: str) -> Dict[Tuple[str, str], 
 LENIENT = {("raw:Overflow", "0-3-1-6"), ("0-3-1-6", "raw:Overflow")}
 
 
+_FRAC_RE = re.compile(r"^-?\d+/\d+$")
+
+
+def norm_val(v):
+    """Numbers come back through DuckDB's DECIMAL(28,10) -> DOUBLE conversion, which is one ulp off for magnitudes whose scaled
+    integer exceeds 2^53 (1e15 is returned as 1000000000000000.125): compare Numbers to 15 significant digits"""
+    if isinstance(v, str) and _FRAC_RE.match(v):
+        a, b = v.split("/")
+        return "%.14e" % (int(a) / int(b))
+    if isinstance(v, (list, tuple)):
+        return [norm_val(x) for x in v]
+    return v
+
+
+def norm_rows(rows):
+    return [[norm_val(x) for x in r] for r in rows]
+
+
 def tie_equal(e, m, key: str) -> bool:
     if e["ok"] != m["ok"]:
         return False
     if e["ok"]:
         if key.startswith("val"):
             return True
-        return [list(r) for r in e["rows"]] == [list(r) for r in m["rows"]]
+        return norm_rows(e["rows"]) == norm_rows(m["rows"])
     if (e["code"], m["code"]) in LENIENT:
         return True
     return e["stage"] == m["stage"] and e["code"] == m["code"]
@@ -876,7 +957,7 @@ def has_native(case) -> bool:
 
 
 def run_forms(case) -> List[str]:
-    return ["csv", "df_str", "parquet"] + (["df_nat"] if has_native(case) else [])
+    return ["csv", "df_str", "parquet"] + (["df_nat", "pq_nat"] if has_native(case) else [])
 
 
 # ---- what docs + declared structure require (C19)
@@ -941,7 +1022,7 @@ def c18_problems(case, eng) -> List[Tuple[str, str, str]]:
     if vals == {"A"}:
         groups: Dict[str, List[str]] = {}
         for k in forms:
-            groups.setdefault(json.dumps([list(r) for r in eng[k]["rows"]], default=str), []).append(k)
+            groups.setdefault(json.dumps(norm_rows(eng[k]["rows"]), default=str), []).append(k)
         if len(groups) == 1:
             return []
         desc = " | ".join("+".join(v) + " -> " + json.dumps(json.loads(g), default=str)[:160] for g, v in groups.items())
@@ -961,7 +1042,7 @@ def c19_problems(case, eng, exp) -> List[Tuple[str, str, str]]:
         s = status(o)
         if exp["accept"]:
             if s == "A":
-                if [list(r) for r in o["rows"]] != [list(r) for r in exp["rows"]]:
+                if norm_rows(o["rows"]) != norm_rows(exp["rows"]):
                     rel = "valid-input-loaded-as-another-value"
                 else:
                     continue
@@ -1013,9 +1094,32 @@ def directed_value_cases(F, start_idx=0, per_family: Optional[int] = None) -> Li
     i = start_idx
     for ty in TYPES:
         for fam in F[ty]:
-            for v in (fam.directed if per_family is None else fam.directed[:per_family]):
-                out.append(single_cell_case(ty, v, fam.label, fam.doc, idx=i))
-                i += 1
+            vals = fam.directed if per_family is None else fam.directed[:per_family]
+            numeric = ty in ("Integer", "Number") and fam.label not in ("blank-only", "padded", "empty-string")
+            for n, v in enumerate(vals):
+                if not numeric:
+                    out.append(single_cell_case(ty, v, fam.label, fam.doc, idx=i))
+                    i += 1
+                    continue
+                # numeric families: the text forms + EVERY native dtype that holds the value exactly (DataFrame column and typed
+                # Parquet column); deterministic, no random choice
+                made = 0
+                for kind in ("float64", "float32", "int64", "Int64"):
+                    c = single_cell_case(ty, v, fam.label, fam.doc, idx=i, force_native={"Me_1": kind})
+                    if c["native"].get("Me_1") == kind:
+                        out.append(c)
+                        i += 1
+                        made += 1
+                        if per_family is not None and n > 0:
+                            break            # quick tier: all dtypes for the first value of the family, one for the others
+                if not made:
+                    out.append(single_cell_case(ty, v, fam.label, fam.doc, idx=i))
+                    i += 1
+            # blank / padded cells: also in a NOT NULL column (the nullable branch of the loaders is a different expression)
+            if fam.label in ("blank-only", "padded"):
+                for v in vals[:1] if per_family is not None else vals:
+                    out.append(single_cell_case(ty, v, fam.label, fam.doc, nullable=False, idx=i))
+                    i += 1
     # the same values as identifiers for a few types/labels where the role changes the path (NOT NULL, duplicates)
     for ty, lab in (("Time_Period", "indicator-without-number"), ("String", "embedded-quote"), ("Integer", "fractional"),
                     ("Date", "datetime"), ("Boolean", "not-boolean")):
@@ -1265,7 +1369,7 @@ def load_corpus(pid: str) -> List[Dict[str, Any]]:
     return out
 
 
-def single_cell_case(ty: str, value: Optional[str], label: str, doc: str, role="Measure", nullable=True, idx=0):
+def single_cell_case(ty: str, value: Optional[str], label: str, doc: str, role="Measure", nullable=True, idx=0, force_native=None):
     import random
     if role == "Identifier":
         comps = [["Id_1", ty, "Identifier", False], ["Me_1", "Integer", "Measure", True]]
@@ -1279,5 +1383,7 @@ def single_cell_case(ty: str, value: Optional[str], label: str, doc: str, role="
             "labels": [["plain", "plain"]], "violations": [],
             "focus": {"row": 0, "col": col, "type": ty, "label": label, "doc": doc, "value": value, "role": role, "nullable": nullable}}
     case["labels"][0][col] = label
+    if force_native:
+        case["force_native"] = force_native
     case["native"] = plan_native(case, random.Random(idx))
     return case
